@@ -852,7 +852,13 @@ class Rewriter:
             )
 
         if expr.kind in {"eq", "ne"}:
-            if x.key > y.key:
+            try:
+                swap = x.key > y.key
+            except TypeError:
+                # keys holding constant values of different types
+                # (e.g. a number and a constant name) are not ordered
+                swap = False
+            if swap:
                 # make eq and ne unique with respect to their operands
                 return relop(y, x)
 
@@ -945,6 +951,9 @@ class Rewriter:
             if isinstance(value, number_types):
                 if value == 0 or value == 1:
                     return x
+                if value < 0:
+                    # undefined, nothing to fold
+                    return
                 return self._eval(like, "sqrt", value)
 
     def sign(self, expr):
